@@ -11,10 +11,6 @@ def parseKind : String → Option Kind
   | "httpscn" => some .httpScenario | "grpcscn" => some .grpcScenario | "genjson" => some .genericJson
   | _ => none
 
-def runName : RunRes → String
-  | .nil => "nil" | .canceled => "canceled" | .errLimit => "limit" | .errPasses => "passes"
-  | .errNoAmmo => "noammo" | .errOther => "other"
-
 def parseRun (s : String) : Spec.C08.RunClass :=
   match s with
   | "nil" => .nil | "canceled" => .canceled | "limit" => .limit | "passes" => .passes
@@ -37,13 +33,29 @@ def parseLine (kv : List (String × String)) : Option Line := do
   pure { inp := { kind, preload := getS kv "preload" == "1", b := ⟨limit, passes⟩, cancelAt := if cap = 0 then none else some cap },
          n, cell := { limit, passes, n, cap } }
 
-/-- the model's observation of a cell, in the harness' format; `ops` is not predicted (echoed from the implementation) -/
-def modelObs (l : Line) (ops : String) : String :=
-  match run l.inp l.n with
-  | none => s!"delivered=? cut=0 run=noreturn end=spinning ops={ops}"
-  | some o =>
-    let cut := match l.inp.cancelAt with | some c => decide (c ≤ o.delivered.length) | none => false
-    s!"delivered={o.delivered.length} cut={if cut then 1 else 0} run={runName o.run} end={if o.sinkClosed then "closed" else "blocked"} ops={ops}"
+def classOf : RunRes → Spec.C08.RunClass
+  | .nil => .nil | .canceled => .canceled | .errLimit => .limit | .errPasses => .passes
+  | .errNoAmmo => .noammo | .errOther => .other
+
+def runClassName (r : Spec.C08.RunClass) : String := r.name
+def endName (e : Spec.C08.EndClass) : String := e.name
+
+/-- what the harness would observe of a model outcome: `cap` = the acquisition count at which it cancels;
+`ops` is not predicted by the model (echoed from the implementation, bounded by the Spec). -/
+def obsOf (cap : Nat) (ops : Nat) : Option (Outcome Nat) → Spec.C08.Obs
+  | none => { delivered := 0, cut := false, run := .noreturn, end_ := .spinning, ops }
+  | some o => { delivered := o.delivered.length, cut := decide (0 < cap ∧ cap ≤ o.delivered.length), run := classOf o.run,
+                end_ := if o.sinkClosed then .closed else .blocked, ops }
+
+/-- `ops`, and for a run that never returns whether it keeps reading the file (`spinning`) or not (`blocked`),
+are not predicted by the model: echoed from the implementation's observation -/
+def showObs (o : Spec.C08.Obs) (ops implEnd : String) : String :=
+  let e := if o.run == .noreturn then implEnd else endName o.end_
+  s!"delivered={o.delivered} cut={if o.cut then 1 else 0} run={runClassName o.run} end={e} ops={ops}"
+
+/-- the model's observation of a cell, in the harness' format -/
+def modelObs (l : Line) (ops : String) (implEnd : String := "spinning") : String :=
+  showObs (obsOf l.cell.cap 0 (run l.inp l.n)) ops implEnd
 
 def parseObs (kv : List (String × String)) : Option Spec.C08.Obs := do
   pure { delivered := ← getN? kv "delivered", cut := getS kv "cut" == "1", run := parseRun (getS kv "run"),
@@ -60,6 +72,6 @@ def handle : Handler := fun input impl =>
     | none =>
       match parseObs ikv with
       | none => (modelObs l "0", s!"fail:crash:{impl.take 120}")
-      | some o => (modelObs l (getS ikv "ops"), Spec.C08.judge l.cell o)
+      | some o => (modelObs l (getS ikv "ops") (getS ikv "end"), Spec.C08.judge l.cell o)
 
 end Pandora.Drv.C08
